@@ -63,3 +63,18 @@ var probeHalf = []emitted{
 	hist(cNewTask("title", "A"), cNewTask("title", "B"), cNewTask("title", "C"), cSeq("i2", "i1"), cSeq("i1", "i3", "i2")),
 	hist(cNewTask("title", "A"), cNewTask("title", "B"), cSeq("i1", "i2", "zz")),
 }
+
+// compaction corner cases: each history ends with compact, compact
+var probeCompact = []emitted{
+	hist(cNewEpic("E1"), cNewEpic("E2"), cNewTask("title", "A", "epic", "i1"), cSet("i3", "epic", "i2"), cPrune(), cCompact(), cCompact()),
+	hist(cNewEpic("E1"), cNewTask("title", "A", "epic", "i1"), cSet("i2", "epic", ""), cPrune(), cCompact(), cCompact()),
+	hist(cNewTask("title", "A"), cSet("i1", "title", "B"), cSet("i1", "title", "A"), cCompact(), cCompact()),
+	hist(cNewTask("title", "A", "body", "x"), cSet("i1", "body", "y"), cSet("i1", "body", "x"), cCompact(), cCompact()),
+	hist(cNewTask("title", "A"), cClaim("a1"), cSet("i1", "state", "todo"), cClaim("a2"), cSet("i1", "state", "done"), cSet("i1", "state", "todo"), cCompact(), cCompact(), cClaim("a3")),
+	hist(cNewTask("title", "A", "state", "doing", "agent", "a1"), cSet("i1", "state", "error"), cCompact(), cSet("i1", "state", "doing"), cCompact()),
+	hist(cNewTask("title", "A"), cNewTask("title", "B"), cSeq("i1", "i2"), cSet("i1", "state", "done"), cPrune(), cCompact(), cCompact(), cClaim("a1")),
+	hist(cNewTask("title", "A"), cSet("i1", "rsum", "one", "rpath", "r1.txt", "rclean", "r1.txt"), cSet("i1", "rsum", "two", "rpath", "r1.txt", "rclean", "r1.txt"),
+		cSet("i1", "rsum", "three", "rpath", "r2.txt", "rclean", "r2.txt"), cCompact(), cCompact()),
+	hist(cNewEpic("E1"), cSet("i1", "title", "E1 renamed"), cSet("i1", "body", "epic body"), cCompact(), cCompact()),
+	hist(cNewTask("title", "A"), cNewTask("title", "B"), cNewTask("title", "C"), cCompact(), cClaim("a1"), cClaim("a2"), cClaim("a3")),
+}
